@@ -20,7 +20,7 @@ type Gen struct {
 	nonce int
 
 	MaxTxs      int
-	CoinbasePct int // percent of blocks whose coinbase pays a wallet program
+	CoinbasePct int              // percent of blocks whose coinbase pays a wallet program
 	Reserved    map[bc.Hash]bool // outputs the random generator must not spend (scripted use)
 
 	// what was generated (per history), for counters
